@@ -28,7 +28,7 @@ RULE = ("per run a history of 6-40 operations: create mode (ECB/CBC/CFB-s/OFB/CT
 REAL = ["pyaes.aes (AES, all modes, Counter)", "pyaes.blockfeeder (Encrypter, Decrypter, stream pumps)", "pyaes.util",
         "register_crypto_plugin.AES128Proxy via bec2format.crypto.create_AES128"]
 STUBS = ["input/output streams: SimByteStream (short reads)", "RefAES (bit-level reference)"]
-PROBES = ["runs-with-assertions-disabled", "shared-adapter-two-threads", "key-in-reused-buffer", "both-directions-on-one-object", "ctr-wrap", "cfb-partial-final-segment", "feeder-chunk-zero", "short-read", "adapter-reused",
+PROBES = ["runs-with-assertions-disabled", "ctr-default-counter", "adapter-input-64k-or-more", "shared-adapter-two-threads", "key-in-reused-buffer", "both-directions-on-one-object", "ctr-wrap", "cfb-partial-final-segment", "feeder-chunk-zero", "short-read", "adapter-reused",
           "adapter-trailing-zero-plaintext", "interleaved-objects", "key-24", "key-32", "pump-block-size-1",
           "decrypter-pkcs7"]
 ASSUMPTIONS = ["sharing one *mode* object between two feeders has no defined result and is not generated"]
@@ -58,7 +58,7 @@ def gen(st, tier):
             mode = w.choice(MODES)
             iv = rbytes(w, 16).hex() if w.random() < 0.8 else None
             seg = w.choice([1, 1, 2, 4, 8, 16, 3])
-            ctr = w.choice([1, 0, (1 << 128) - 2, (1 << 128) - 1, w.getrandbits(128)])
+            ctr = w.choice([1, 0, (1 << 128) - 2, (1 << 128) - 1, w.getrandbits(128), "default", "default"])
             if kind == "adapter":
                 o = {"id": nobj, "kind": "adapter", "key": rbytes(w, 16).hex(), "iv": iv}
             elif kind == "raw":
@@ -84,6 +84,8 @@ def gen(st, tier):
         o = w.choice(live)
         if o["kind"] == "adapter":
             ln = w.choice([1, 5, 15, 16, 17, 32, 40])
+            if w.random() < 0.004:
+                ln = w.choice([65536, 65537, 65552, 70000])     # a firmware-sized buffer
             d = bytearray(rbytes(w, ln))
             if w.random() < 0.4:
                 z = min(ln, w.choice([1, 2, 16]))
@@ -125,7 +127,7 @@ def _ref_stream(o, data, direction):
         return f(key, iv, padded, s)[:len(data)]
     if m == "ofb":
         return refaes.ofb(key, iv, data)
-    return refaes.ctr(key, int(o["ctr"]), data)
+    return refaes.ctr(key, 1 if o["ctr"] == "default" else int(o["ctr"]), data)
 
 
 def _pkcs7(data):
@@ -158,6 +160,8 @@ def _make_mode(o):
         return aes.AESModeOfOperationCFB(key, iv if iv is not None else bytes(16), o["seg"])
     if m == "ofb":
         return aes.AESModeOfOperationOFB(key, iv)
+    if o["ctr"] == "default":
+        return aes.AESModeOfOperationCTR(key)        # the documented default: a counter starting at 1
     return aes.AESModeOfOperationCTR(key, aes.Counter(int(o["ctr"])))
 
 
@@ -304,6 +308,8 @@ def run(case):
                 if s["calls"] >= 2:
                     out.probes["adapter-reused"] += 1
                     out.nontrivial = True
+                if len(d) >= 65536:
+                    out.probes["adapter-input-64k-or-more"] += 1
                 try:
                     if what == "enc":
                         got = s["obj"].encrypt(d)
@@ -405,8 +411,10 @@ def run(case):
                 out.ev("finish", oid, len(s["inp"]), len(s["outp"]))
                 if o["mode"] == "cfb" and len(s["inp"]) % o["seg"]:
                     out.probes["cfb-partial-final-segment"] += 1
-                if o["mode"] == "ctr" and int(o["ctr"]) + len(s["inp"]) // 16 >= 1 << 128:
+                if o["mode"] == "ctr" and o["ctr"] != "default" and int(o["ctr"]) + len(s["inp"]) // 16 >= 1 << 128:
                     out.probes["ctr-wrap"] += 1
+                if o["mode"] == "ctr" and o["ctr"] == "default":
+                    out.probes["ctr-default-counter"] += 1
                 if exp is not None and s["outp"] != exp:
                     out.fail("C16.feeder-differs", "%s-%s" % (o["mode"], o["dir"]),
                              "%s %s feeder (padding %s, key %d bytes): output for %d input bytes differs from the "
@@ -432,7 +440,7 @@ def run(case):
                     continue
                 exp = _ref_stream(o, s["inp"], o["dir"])
                 out.ev("direct", oid, n)
-                if o["mode"] == "ctr" and int(o["ctr"]) + len(s["inp"]) // 16 >= 1 << 128:
+                if o["mode"] == "ctr" and o["ctr"] != "default" and int(o["ctr"]) + len(s["inp"]) // 16 >= 1 << 128:
                     out.probes["ctr-wrap"] += 1
                 if s["outp"] != exp:
                     out.fail("C16.mode-differs", "%s-%s" % (o["mode"], o["dir"]),
